@@ -5,7 +5,7 @@
    the correspondence run only; its panics on ill-formed octets are a recorded finding (partial). *)
 From Coq Require Import List NArith Bool Arith.
 Import ListNotations.
-Require Import V.Regex V.Abnf V.Parse V.BridgePaths V.C02Bridge V.Cmp V.PctWf.
+Require Import V.Regex V.Abnf V.Parse V.BridgePaths V.C02Bridge V.Cmp V.PctWf V.C19Proofs.
 Local Open Scope nat_scope.
 
 Theorem C19_octets_total_partial : forall s,
@@ -17,6 +17,17 @@ Proof.
   - exact chk_q_U. - exact chk_q_I. - exact chk_f_U. - exact chk_f_I.
 Qed.
 Print Assumptions C19_octets_total_partial.
+
+(* FAITHFUL, on whole strings: the octet view of s is t exactly when t is s with each %XY replaced by the octet 16*X+Y
+   and every other byte kept (relation Decoded, C19Proofs.v) -- in particular the fuel of the model is never exhausted
+   and None arises only from a malformed escape; with C19_octets_total_partial every valid component has exactly one
+   such t.  Text without '%' is its own view. *)
+Theorem C19_octets_faithful : forall s t, dec s = Some t <-> Decoded s t.
+Proof. exact dec_iff. Qed.
+Print Assumptions C19_octets_faithful.
+Theorem C19_octets_plain : forall s, Forall (fun c => is c PCT = false) s -> dec s = Some s.
+Proof. intros s H. apply dec_iff, decoded_plain, H. Qed.
+Print Assumptions C19_octets_plain.
 
 (* each step of the decoder: a literal octet is kept, "%XY" becomes the octet 16*X+Y *)
 Theorem C19_step_literal : forall c s f, is c PCT = false -> dec_fuel (S f) (c :: s) = option_map (cons c) (dec_fuel f s).
